@@ -329,35 +329,18 @@ func c06Replay(f map[string]string, evs []string, scale int) (string, bool) {
 			}
 			return false
 		}
-		// exchanges that may legitimately put a query on the wire now
-		var cands []int
-		for _, x := range exs {
-			if parked(x.mark) {
-				continue
-			}
-			if !x.returned() || (x.sc && !x.booked) {
-				cands = append(cands, x.mark)
-			}
-		}
+		// A caller that has not returned may write (first attempt or retry); so may the worker of an
+		// exchange that was cancelled at start and has not written yet.  Anything else is a
+		// recycled buffer (D14): book it under the latest cancelled-at-start exchange that has not
+		// written yet (at quiescence an earlier one has either written already or never will).
 		pick := m
-		found := false
-		for _, c := range cands {
-			if c == m {
-				found = true
-			}
-		}
-		if !found {
-			// at quiescence an earlier cancelled-at-start exchange has either written already or
-			// never will: the latest one is the writer
-			for i := len(cands) - 1; i >= 0; i-- {
-				if exs[cands[i]].sc && exs[cands[i]].returned() {
-					pick = cands[i]
-					found = true
+		ok := m >= 0 && m < len(exs) && (!exs[m].returned() || (exs[m].sc && !exs[m].booked))
+		if !ok {
+			for i := len(exs) - 1; i >= 0; i-- {
+				if exs[i].sc && !exs[i].booked && !parked(i) {
+					pick = i
 					break
 				}
-			}
-			if !found && len(cands) == 1 {
-				pick = cands[0]
 			}
 		}
 		if pick >= 0 && pick < len(exs) {
@@ -565,6 +548,13 @@ func c06Replay(f map[string]string, evs []string, scale int) (string, bool) {
 		}
 		if !waiting && time.Since(t0) > budget {
 			slow = true
+		}
+		if os.Getenv("C06_DEBUG") != "" {
+			nI, nA, nS, nC := t.VerifC06Stats()
+			srv.mu.Lock()
+			fmt.Fprintf(os.Stderr, "ev %d %s%d: %v idle=%d all=%d serving=%d closed=%d accepted=%d dials=%d/%d\n", i, ev, arg,
+				time.Since(t0), nI, nA, nS, nC, len(srv.conns), dialsStarted.Load(), dialsSettled.Load())
+			srv.mu.Unlock()
 		}
 	}
 
